@@ -27,7 +27,7 @@ ID = "C10"
 PROPS = "Props/C10.v"
 EXTRACT = "extract/ExC10.v"
 OBLIGATION = "merkle-history"
-THEOREMS = ["C10_inv_init", "C10_inv_step", "C10_reachable", "C10_no_stale",
+THEOREMS = ["C10_inv_init", "C10_inv_step", "C10_reachable", "C10_no_stale", "C10_fresh_unique",
             "C10_delete_keeps_other_parent", "C10_no_stale_refuted_old_remove",
             "C10_falsy_hash_refuted", "C10_guards_satisfiable"]
 RULE = ("histories of 5-60 operations over <= 12 nodes (generic MerkleNode/MerkleLeaf subclass, and real "
@@ -314,7 +314,7 @@ def gen_case(rng, world, nops, weights, nscen=6, readall=None):
 
 
 def gen(rng, tier, weights=WEIGHTS_C10, nscen=6):
-    n_cases = 700 if tier == "quick" else 30000
+    n_cases = 1500 if tier == "quick" else 30000
     cases = []
     for k in range(n_cases):
         world = "generic" if k % 2 == 0 else "disk"
